@@ -3,6 +3,7 @@ import RosuModel.Lemmas.GradualCatch
 import RosuModel.Lemmas.GradualMania
 import RosuModel.Lemmas.GradualTaiko
 import RosuModel.Lemmas.GradualTaikoNth
+import RosuModel.Lemmas.GradualProtocol
 
 /-!
 # C15 — gradual calculators obey the iterator protocol
@@ -40,10 +41,9 @@ theorem osu_reachable (sk : Skills S) (objs : List OsuObj) (ops : List Op) :
           simp [Machine.step, osuMachine, this]
         simpa [Machine.exec, Machine.run, h2] using ih g i hc
     | nth k =>
-      rcases Nat.lt_or_ge i objs.length with hlt | hge
+      rcases Nat.lt_or_ge (i + k) objs.length with hlt | hge
       · exact ih _ _ ((osuNth_spec sk objs g i k hc).1 hlt).2
-      · have heq : i = objs.length := by omega
-        exact ih _ _ ((osuNth_spec sk objs g i k hc).2 heq).2
+      · exact ih _ _ ((osuNth_spec sk objs g i k hc).2 hge).2
     | len => exact ih g i hc
 
 /-- `len()` never underflows and is the number of values plain iteration still yields. -/
@@ -58,57 +58,64 @@ theorem osu_exhausted_stays_none (sk : Skills S) (objs : List OsuObj) (g : OsuGr
     (osuMachine sk objs).next g = (.none, g) ∧
     ((osuMachine sk objs).nth g k).1 = .none ∧
     OsuCanon sk objs ((osuMachine sk objs).nth g k).2 objs.length := by
-  refine ⟨?_, ((osuNth_spec sk objs g _ k hc).2 rfl).1, ((osuNth_spec sk objs g _ k hc).2 rfl).2⟩
+  refine ⟨?_, ((osuNth_spec sk objs g _ k hc).2 (Nat.le_add_right _ _)).1, ((osuNth_spec sk objs g _ k hc).2 (Nat.le_add_right _ _)).2⟩
   have := (osuNext_spec sk objs g _ hc).2 rfl
   simp [osuMachine, this, optToRes]
 
-/-- What `nth` really does (and what `GradualPerformance::nth/last` rely on): it consumes
-`min (k+1) remaining` values and returns the last of them; `None` iff nothing remains. -/
+/-- What `nth k` does (as fixed by `fix: gradual difficulty nth(n) returns None when fewer than n+1
+values remain`): it consumes `min (k+1) remaining` values; it returns the last of them when more than
+`k` values remained and `None` otherwise (the calculator then ends exhausted). -/
 theorem osu_nth_processes_min (sk : Skills S) (objs : List OsuObj) (g : OsuGrad S) (i k : Nat)
     (hc : OsuCanon sk objs g i) :
-    (i < objs.length →
-      ((osuMachine sk objs).nth g k).1 = .some (osuValue sk objs (i + min (k + 1) (objs.length - i))) ∧
-      OsuCanon sk objs ((osuMachine sk objs).nth g k).2 (i + min (k + 1) (objs.length - i))) ∧
-    (i = objs.length → ((osuMachine sk objs).nth g k).1 = .none) := by
-  constructor
-  · intro hlt
-    have h := (osuNth_spec sk objs g i k hc).1 hlt
-    simp only at h
-    have e : i + min k (objs.length - i - 1) + 1 = i + min (k + 1) (objs.length - i) := by omega
-    rw [e] at h
-    exact h
-  · intro heq
-    exact ((osuNth_spec sk objs g i k hc).2 heq).1
+    OsuCanon sk objs ((osuMachine sk objs).nth g k).2 (i + min (k + 1) (objs.length - i)) ∧
+    (i + k < objs.length → ((osuMachine sk objs).nth g k).1 = .some (osuValue sk objs (i + k + 1))) ∧
+    (objs.length ≤ i + k → ((osuMachine sk objs).nth g k).1 = .none) := by
+  have hle := hc.le
+  rcases Nat.lt_or_ge (i + k) objs.length with hlt | hge
+  · obtain ⟨hv, hcn⟩ := (osuNth_spec sk objs g i k hc).1 hlt
+    have e : i + min (k + 1) (objs.length - i) = i + k + 1 := by omega
+    exact ⟨by rw [e]; exact hcn, fun _ => hv, fun h => by omega⟩
+  · obtain ⟨hv, hcn⟩ := (osuNth_spec sk objs g i k hc).2 hge
+    have e : i + min (k + 1) (objs.length - i) = objs.length := by omega
+    exact ⟨by rw [e]; exact hcn, fun h => by omega, fun _ => hv⟩
 
-/-- **Partial** form of the iterator contract: when at least `k+1` values remain, `nth k` is
-exactly `k+1` calls of `next` (same result, same successor state index). -/
-theorem osu_nth_eq_iterated_next_partial (sk : Skills S) (objs : List OsuObj) (g : OsuGrad S)
-    (i k : Nat) (hc : OsuCanon sk objs g i) (hk : i + k + 1 ≤ objs.length) :
-    some ((osuMachine sk objs).nth g k).1 = ((osuMachine sk objs).nexts g (k + 1)).1.getLast? ∧
-    OsuCanon sk objs ((osuMachine sk objs).nth g k).2 (i + k + 1) ∧
-    OsuCanon sk objs ((osuMachine sk objs).nexts g (k + 1)).2 (i + k + 1) := by
-  have hlt : i < objs.length := by omega
-  obtain ⟨hv, hcn⟩ := (osu_nth_processes_min sk objs g i k hc).1 hlt
-  have e : i + min (k + 1) (objs.length - i) = i + k + 1 := by omega
-  rw [e] at hv hcn
-  obtain ⟨hvs, hcs⟩ := osu_nexts_spec sk objs (k + 1) g i hc (by omega)
-  refine ⟨?_, hcn, by simpa [Nat.add_assoc] using hcs⟩
-  rw [hv, hvs, List.range_succ]
-  simp
+/-- The per-state specifications of `next` and `nth` in the form of `Lemmas/GradualProtocol.lean`. -/
+theorem osu_protocol (sk : Skills S) (objs : List OsuObj) :
+    ProtocolSpec (osuMachine sk objs) (OsuCanon sk objs) objs.length (osuValue sk objs) where
+  le := fun g i hc => hc.le
+  next_some := fun g i hc hlt => by
+    have := (osuNext_spec sk objs g i hc).1 hlt
+    exact ⟨by show optToRes (osuNext sk objs g).1 = _; rw [this.1]; rfl, this.2⟩
+  next_none := fun g i hc heq => by
+    have := (osuNext_spec sk objs g i hc).2 heq
+    exact ⟨by show optToRes (osuNext sk objs g).1 = _; rw [this]; rfl,
+      by show OsuCanon sk objs (osuNext sk objs g).2 i; rw [this]; exact hc⟩
+  nth_some := fun g i k hc h => ((osuNth_spec sk objs g i k hc).1 h).1
+  nth_none := fun g i k hc h => ((osuNth_spec sk objs g i k hc).2 h).1
 
-/-- The full `Iterator::nth` contract: `nth k` equals the last of `k+1` `next` calls, which is
-`None` when fewer than `k+1` values remain. -/
+/-- **The `Iterator::nth` contract**, for every `k` and every reachable state: `nth k` returns exactly what
+the last of `k+1` calls of `next` returns — `None` when fewer than `k+1` values remain. -/
+theorem osu_nth_eq_iterated_next (sk : Skills S) (objs : List OsuObj) (g : OsuGrad S) (i k : Nat) (hc : OsuCanon sk objs g i) :
+    some ((osuMachine sk objs).nth g k).1 = ((osuMachine sk objs).nexts g (k + 1)).1.getLast? :=
+  (osu_protocol sk objs).nth_eq_iterated_next g i k hc
+
+/-- The full `Iterator::nth` contract on a fresh calculator, stated for a machine: `nth k` equals the last of
+`k+1` `next` calls, which is `None` when fewer than `k+1` values remain. -/
 def unitSkills : Skills Unit := ⟨(), fun _ _ => ()⟩
 
-def OsuNthContract : Prop :=
+def OsuNthContract (mk : List OsuObj → Machine (OsuGrad Unit) (OsuCounts × Unit)) : Prop :=
   ∀ (objs : List OsuObj) (k : Nat),
-    some ((osuMachine unitSkills objs).nth (osuNew unitSkills objs) k).1 =
-      ((osuMachine unitSkills objs).nexts (osuNew unitSkills objs) (k + 1)).1.getLast?
+    some ((mk objs).nth (osuNew unitSkills objs) k).1 =
+      ((mk objs).nexts (osuNew unitSkills objs) (k + 1)).1.getLast?
 
-/-- The contract is **false** of the code: on a two-circle map `nth(2)` returns the second
-value where two `next` calls followed by a third return `None`.  (Recorded as a known finding;
-`GradualPerformance::last` relies on this clamping.) -/
-theorem osu_nth_contract_fails : ¬ OsuNthContract := by
+/-- The contract holds of the code as fixed (instance of `osu_nth_eq_iterated_next`). -/
+theorem osu_nth_contract : OsuNthContract (osuMachine unitSkills) :=
+  fun objs k => osu_nth_eq_iterated_next unitSkills objs _ 0 k (osuNew_canon unitSkills objs)
+
+/-- The contract was **false** of the code before the fix (`Old.osuMachine`, `take = min(n, len − 1)`):
+on a two-circle map `nth(2)` returned the second value where two `next` calls followed by a third
+return `None` (the former known finding `gradual-nth-clamps-to-last`). -/
+theorem osu_nth_contract_fails : ¬ OsuNthContract (Old.osuMachine unitSkills) := by
   intro h
   have := h [⟨.circle, 0, 0⟩, ⟨.circle, 0, 0⟩] 2
   revert this
@@ -121,10 +128,9 @@ theorem osu_never_panics (sk : Skills S) (objs : List OsuObj) (ops : List Op) (k
   intro g
   obtain ⟨i, hc⟩ := osu_reachable sk objs ops
   refine ⟨?_, by rw [osu_len_eq_remaining sk objs g i hc]; simp⟩
-  rcases Nat.lt_or_ge i objs.length with hlt | hge
-  · rw [((osu_nth_processes_min sk objs g i k hc).1 hlt).1]; simp
-  · have heq : i = objs.length := by have := hc.le; omega
-    rw [(osu_nth_processes_min sk objs g i k hc).2 heq]; simp
+  rcases Nat.lt_or_ge (i + k) objs.length with hlt | hge
+  · rw [(osu_nth_processes_min sk objs g i k hc).2.1 hlt]; simp
+  · rw [(osu_nth_processes_min sk objs g i k hc).2.2 hge]; simp
 
 
 /-! ## osu!catch (`recs` = the gradual records, one per palpable object) -/
@@ -150,51 +156,56 @@ theorem catch_reachable (sk : Skills S) (recs : List CatchRec) (ops : List Op) :
           rw [this]
         simpa [Machine.exec, Machine.run, h2] using ih g i hc
     | nth k =>
-      rcases Nat.lt_or_ge i recs.length with hlt | hge
+      rcases Nat.lt_or_ge (i + k) recs.length with hlt | hge
       · exact ih _ _ ((catchNth_spec sk recs g i k hc).1 hlt).2
-      · have heq : i = recs.length := by omega
-        exact ih _ _ ((catchNth_spec sk recs g i k hc).2 heq).2
+      · exact ih _ _ ((catchNth_spec sk recs g i k hc).2 hge).2
     | len => exact ih g i hc
 
 theorem catch_len_eq_remaining (sk : Skills S) (recs : List CatchRec) (g : CatchGrad S) (i : Nat)
     (hc : CatchCanon sk recs g i) : (catchMachine sk recs (recs.length - 1)).len g = some (recs.length - i) := catchLen_spec sk recs g i hc
 
+/-- What `nth k` does (as fixed by `fix: gradual difficulty nth(n) returns None when fewer than n+1
+values remain`): it consumes `min (k+1) remaining` values; it returns the last of them when more than
+`k` values remained and `None` otherwise (the calculator then ends exhausted). -/
 theorem catch_nth_processes_min (sk : Skills S) (recs : List CatchRec) (g : CatchGrad S) (i k : Nat)
     (hc : CatchCanon sk recs g i) :
-    (i < recs.length →
-      ((catchMachine sk recs (recs.length - 1)).nth g k).1 = .some (catchValue sk recs (i + min (k + 1) (recs.length - i))) ∧
-      CatchCanon sk recs ((catchMachine sk recs (recs.length - 1)).nth g k).2 (i + min (k + 1) (recs.length - i))) ∧
-    (i = recs.length → ((catchMachine sk recs (recs.length - 1)).nth g k).1 = .none) := by
-  constructor
-  · intro hlt
-    have h := (catchNth_spec sk recs g i k hc).1 hlt
-    simp only at h
-    have e : i + min k (recs.length - i - 1) + 1 = i + min (k + 1) (recs.length - i) := by omega
-    rw [e] at h
-    exact h
-  · intro heq
-    exact ((catchNth_spec sk recs g i k hc).2 heq).1
+    CatchCanon sk recs ((catchMachine sk recs (recs.length - 1)).nth g k).2 (i + min (k + 1) (recs.length - i)) ∧
+    (i + k < recs.length → ((catchMachine sk recs (recs.length - 1)).nth g k).1 = .some (catchValue sk recs (i + k + 1))) ∧
+    (recs.length ≤ i + k → ((catchMachine sk recs (recs.length - 1)).nth g k).1 = .none) := by
+  have hle := hc.le
+  rcases Nat.lt_or_ge (i + k) recs.length with hlt | hge
+  · obtain ⟨hv, hcn⟩ := (catchNth_spec sk recs g i k hc).1 hlt
+    have e : i + min (k + 1) (recs.length - i) = i + k + 1 := by omega
+    exact ⟨by rw [e]; exact hcn, fun _ => hv, fun h => by omega⟩
+  · obtain ⟨hv, hcn⟩ := (catchNth_spec sk recs g i k hc).2 hge
+    have e : i + min (k + 1) (recs.length - i) = recs.length := by omega
+    exact ⟨by rw [e]; exact hcn, fun h => by omega, fun _ => hv⟩
+
+/-- The per-state specifications of `next` and `nth` in the form of `Lemmas/GradualProtocol.lean`. -/
+theorem catch_protocol (sk : Skills S) (recs : List CatchRec) :
+    ProtocolSpec (catchMachine sk recs (recs.length - 1)) (CatchCanon sk recs) recs.length (catchValue sk recs) where
+  le := fun g i hc => hc.le
+  next_some := fun g i hc hlt => by
+    exact (catchNext_spec sk recs g i hc).1 hlt
+  next_none := fun g i hc heq => by
+    have := (catchNext_spec sk recs g i hc).2 heq
+    exact ⟨by show (catchNext sk recs (recs.length - 1) g).1 = _; rw [this],
+      by show CatchCanon sk recs (catchNext sk recs (recs.length - 1) g).2 i; rw [this]; exact hc⟩
+  nth_some := fun g i k hc h => ((catchNth_spec sk recs g i k hc).1 h).1
+  nth_none := fun g i k hc h => ((catchNth_spec sk recs g i k hc).2 h).1
+
+/-- **The `Iterator::nth` contract**, for every `k` and every reachable state: `nth k` returns exactly what
+the last of `k+1` calls of `next` returns — `None` when fewer than `k+1` values remain. -/
+theorem catch_nth_eq_iterated_next (sk : Skills S) (recs : List CatchRec) (g : CatchGrad S) (i k : Nat) (hc : CatchCanon sk recs g i) :
+    some ((catchMachine sk recs (recs.length - 1)).nth g k).1 = ((catchMachine sk recs (recs.length - 1)).nexts g (k + 1)).1.getLast? :=
+  (catch_protocol sk recs).nth_eq_iterated_next g i k hc
 
 theorem catch_exhausted_stays_none (sk : Skills S) (recs : List CatchRec) (g : CatchGrad S)
     (hc : CatchCanon sk recs g recs.length) (k : Nat) :
     (catchMachine sk recs (recs.length - 1)).next g = (.none, g) ∧
     ((catchMachine sk recs (recs.length - 1)).nth g k).1 = .none ∧
     CatchCanon sk recs ((catchMachine sk recs (recs.length - 1)).nth g k).2 recs.length :=
-  ⟨(catchNext_spec sk recs g _ hc).2 rfl, ((catchNth_spec sk recs g _ k hc).2 rfl).1, ((catchNth_spec sk recs g _ k hc).2 rfl).2⟩
-
-theorem catch_nth_eq_iterated_next_partial (sk : Skills S) (recs : List CatchRec) (g : CatchGrad S)
-    (i k : Nat) (hc : CatchCanon sk recs g i) (hk : i + k + 1 ≤ recs.length) :
-    some ((catchMachine sk recs (recs.length - 1)).nth g k).1 = ((catchMachine sk recs (recs.length - 1)).nexts g (k + 1)).1.getLast? ∧
-    CatchCanon sk recs ((catchMachine sk recs (recs.length - 1)).nth g k).2 (i + k + 1) ∧
-    CatchCanon sk recs ((catchMachine sk recs (recs.length - 1)).nexts g (k + 1)).2 (i + k + 1) := by
-  have hlt : i < recs.length := by omega
-  obtain ⟨hv, hcn⟩ := (catch_nth_processes_min sk recs g i k hc).1 hlt
-  have e : i + min (k + 1) (recs.length - i) = i + k + 1 := by omega
-  rw [e] at hv hcn
-  obtain ⟨hvs, hcs⟩ := catch_nexts_spec sk recs (k + 1) g i hc (by omega)
-  refine ⟨?_, hcn, by simpa [Nat.add_assoc] using hcs⟩
-  rw [hv, hvs, List.range_succ]
-  simp
+  ⟨(catchNext_spec sk recs g _ hc).2 rfl, ((catchNth_spec sk recs g _ k hc).2 (Nat.le_add_right _ _)).1, ((catchNth_spec sk recs g _ k hc).2 (Nat.le_add_right _ _)).2⟩
 
 theorem catch_never_panics (sk : Skills S) (recs : List CatchRec) (ops : List Op) (k : Nat) :
     let g := (catchMachine sk recs (recs.length - 1)).exec (catchNew sk) ops
@@ -202,10 +213,9 @@ theorem catch_never_panics (sk : Skills S) (recs : List CatchRec) (ops : List Op
   intro g
   obtain ⟨i, hc⟩ := catch_reachable sk recs ops
   refine ⟨?_, ?_, by rw [catch_len_eq_remaining sk recs g i hc]; simp⟩
-  · rcases Nat.lt_or_ge i recs.length with hlt | hge
-    · rw [((catch_nth_processes_min sk recs g i k hc).1 hlt).1]; simp
-    · have heq : i = recs.length := by have := hc.le; omega
-      rw [(catch_nth_processes_min sk recs g i k hc).2 heq]; simp
+  · rcases Nat.lt_or_ge (i + k) recs.length with hlt | hge
+    · rw [(catch_nth_processes_min sk recs g i k hc).2.1 hlt]; simp
+    · rw [(catch_nth_processes_min sk recs g i k hc).2.2 hge]; simp
   · rcases Nat.lt_or_ge i recs.length with hlt | hge
     · have := ((catchNext_spec sk recs g i hc).1 hlt).1
       show (catchNext sk recs (recs.length - 1) g).1 ≠ _
@@ -238,51 +248,56 @@ theorem mania_reachable (sk : Skills S) (objs : List ManiaObj) (ops : List Op) :
           rw [this]
         simpa [Machine.exec, Machine.run, h2] using ih g i hc
     | nth k =>
-      rcases Nat.lt_or_ge i objs.length with hlt | hge
+      rcases Nat.lt_or_ge (i + k) objs.length with hlt | hge
       · exact ih _ _ ((maniaNth_spec sk objs g i k hc).1 hlt).2
-      · have heq : i = objs.length := by omega
-        exact ih _ _ ((maniaNth_spec sk objs g i k hc).2 heq).2
+      · exact ih _ _ ((maniaNth_spec sk objs g i k hc).2 hge).2
     | len => exact ih g i hc
 
 theorem mania_len_eq_remaining (sk : Skills S) (objs : List ManiaObj) (g : ManiaGrad S) (i : Nat)
     (hc : ManiaCanon sk objs g i) : (maniaMachine sk objs).len g = some (objs.length - i) := maniaLen_spec sk objs g i hc
 
+/-- What `nth k` does (as fixed by `fix: gradual difficulty nth(n) returns None when fewer than n+1
+values remain`): it consumes `min (k+1) remaining` values; it returns the last of them when more than
+`k` values remained and `None` otherwise (the calculator then ends exhausted). -/
 theorem mania_nth_processes_min (sk : Skills S) (objs : List ManiaObj) (g : ManiaGrad S) (i k : Nat)
     (hc : ManiaCanon sk objs g i) :
-    (i < objs.length →
-      ((maniaMachine sk objs).nth g k).1 = .some (maniaValue sk objs (i + min (k + 1) (objs.length - i))) ∧
-      ManiaCanon sk objs ((maniaMachine sk objs).nth g k).2 (i + min (k + 1) (objs.length - i))) ∧
-    (i = objs.length → ((maniaMachine sk objs).nth g k).1 = .none) := by
-  constructor
-  · intro hlt
-    have h := (maniaNth_spec sk objs g i k hc).1 hlt
-    simp only at h
-    have e : i + min k (objs.length - i - 1) + 1 = i + min (k + 1) (objs.length - i) := by omega
-    rw [e] at h
-    exact h
-  · intro heq
-    exact ((maniaNth_spec sk objs g i k hc).2 heq).1
+    ManiaCanon sk objs ((maniaMachine sk objs).nth g k).2 (i + min (k + 1) (objs.length - i)) ∧
+    (i + k < objs.length → ((maniaMachine sk objs).nth g k).1 = .some (maniaValue sk objs (i + k + 1))) ∧
+    (objs.length ≤ i + k → ((maniaMachine sk objs).nth g k).1 = .none) := by
+  have hle := hc.le
+  rcases Nat.lt_or_ge (i + k) objs.length with hlt | hge
+  · obtain ⟨hv, hcn⟩ := (maniaNth_spec sk objs g i k hc).1 hlt
+    have e : i + min (k + 1) (objs.length - i) = i + k + 1 := by omega
+    exact ⟨by rw [e]; exact hcn, fun _ => hv, fun h => by omega⟩
+  · obtain ⟨hv, hcn⟩ := (maniaNth_spec sk objs g i k hc).2 hge
+    have e : i + min (k + 1) (objs.length - i) = objs.length := by omega
+    exact ⟨by rw [e]; exact hcn, fun h => by omega, fun _ => hv⟩
+
+/-- The per-state specifications of `next` and `nth` in the form of `Lemmas/GradualProtocol.lean`. -/
+theorem mania_protocol (sk : Skills S) (objs : List ManiaObj) :
+    ProtocolSpec (maniaMachine sk objs) (ManiaCanon sk objs) objs.length (maniaValue sk objs) where
+  le := fun g i hc => hc.le
+  next_some := fun g i hc hlt => by
+    exact (maniaNext_spec sk objs g i hc).1 hlt
+  next_none := fun g i hc heq => by
+    have := (maniaNext_spec sk objs g i hc).2 heq
+    exact ⟨by show (maniaNext sk objs g).1 = _; rw [this],
+      by show ManiaCanon sk objs (maniaNext sk objs g).2 i; rw [this]; exact hc⟩
+  nth_some := fun g i k hc h => ((maniaNth_spec sk objs g i k hc).1 h).1
+  nth_none := fun g i k hc h => ((maniaNth_spec sk objs g i k hc).2 h).1
+
+/-- **The `Iterator::nth` contract**, for every `k` and every reachable state: `nth k` returns exactly what
+the last of `k+1` calls of `next` returns — `None` when fewer than `k+1` values remain. -/
+theorem mania_nth_eq_iterated_next (sk : Skills S) (objs : List ManiaObj) (g : ManiaGrad S) (i k : Nat) (hc : ManiaCanon sk objs g i) :
+    some ((maniaMachine sk objs).nth g k).1 = ((maniaMachine sk objs).nexts g (k + 1)).1.getLast? :=
+  (mania_protocol sk objs).nth_eq_iterated_next g i k hc
 
 theorem mania_exhausted_stays_none (sk : Skills S) (objs : List ManiaObj) (g : ManiaGrad S)
     (hc : ManiaCanon sk objs g objs.length) (k : Nat) :
     (maniaMachine sk objs).next g = (.none, g) ∧
     ((maniaMachine sk objs).nth g k).1 = .none ∧
     ManiaCanon sk objs ((maniaMachine sk objs).nth g k).2 objs.length :=
-  ⟨(maniaNext_spec sk objs g _ hc).2 rfl, ((maniaNth_spec sk objs g _ k hc).2 rfl).1, ((maniaNth_spec sk objs g _ k hc).2 rfl).2⟩
-
-theorem mania_nth_eq_iterated_next_partial (sk : Skills S) (objs : List ManiaObj) (g : ManiaGrad S)
-    (i k : Nat) (hc : ManiaCanon sk objs g i) (hk : i + k + 1 ≤ objs.length) :
-    some ((maniaMachine sk objs).nth g k).1 = ((maniaMachine sk objs).nexts g (k + 1)).1.getLast? ∧
-    ManiaCanon sk objs ((maniaMachine sk objs).nth g k).2 (i + k + 1) ∧
-    ManiaCanon sk objs ((maniaMachine sk objs).nexts g (k + 1)).2 (i + k + 1) := by
-  have hlt : i < objs.length := by omega
-  obtain ⟨hv, hcn⟩ := (mania_nth_processes_min sk objs g i k hc).1 hlt
-  have e : i + min (k + 1) (objs.length - i) = i + k + 1 := by omega
-  rw [e] at hv hcn
-  obtain ⟨hvs, hcs⟩ := mania_nexts_spec sk objs (k + 1) g i hc (by omega)
-  refine ⟨?_, hcn, by simpa [Nat.add_assoc] using hcs⟩
-  rw [hv, hvs, List.range_succ]
-  simp
+  ⟨(maniaNext_spec sk objs g _ hc).2 rfl, ((maniaNth_spec sk objs g _ k hc).2 (Nat.le_add_right _ _)).1, ((maniaNth_spec sk objs g _ k hc).2 (Nat.le_add_right _ _)).2⟩
 
 theorem mania_never_panics (sk : Skills S) (objs : List ManiaObj) (ops : List Op) (k : Nat) :
     let g := (maniaMachine sk objs).exec (maniaNew sk objs) ops
@@ -290,10 +305,9 @@ theorem mania_never_panics (sk : Skills S) (objs : List ManiaObj) (ops : List Op
   intro g
   obtain ⟨i, hc⟩ := mania_reachable sk objs ops
   refine ⟨?_, ?_, by rw [mania_len_eq_remaining sk objs g i hc]; simp⟩
-  · rcases Nat.lt_or_ge i objs.length with hlt | hge
-    · rw [((mania_nth_processes_min sk objs g i k hc).1 hlt).1]; simp
-    · have heq : i = objs.length := by have := hc.le; omega
-      rw [(mania_nth_processes_min sk objs g i k hc).2 heq]; simp
+  · rcases Nat.lt_or_ge (i + k) objs.length with hlt | hge
+    · rw [(mania_nth_processes_min sk objs g i k hc).2.1 hlt]; simp
+    · rw [(mania_nth_processes_min sk objs g i k hc).2.2 hge]; simp
   · rcases Nat.lt_or_ge i objs.length with hlt | hge
     · have := ((maniaNext_spec sk objs g i hc).1 hlt).1
       show (maniaNext sk objs g).1 ≠ _
@@ -307,9 +321,9 @@ theorem mania_never_panics (sk : Skills S) (objs : List ManiaObj) (ops : List Op
 
 Since `/repo` `fix: taiko gradual difficulty counts the first two objects like every other hit` the
 protocol laws hold for **every** object list (`TaikoSt` = canonical state after `i` values, or the
-drained state after an exhausted call; `Lemmas/GradualTaikoNth.lean`).  `nth k` with
-`k ≥ remaining ≥ 1` still returns the last value (recorded finding `gradual-nth-clamps-to-last`,
-like the other three modes — `osu_nth_contract_fails`). -/
+drained state after an exhausted call; `Lemmas/GradualTaikoNth.lean`), including the full
+`Iterator::nth` contract since `fix: gradual difficulty nth(n) returns None when fewer than n+1 values
+remain`. -/
 
 def listSkills : Skills (List Nat) := ⟨[], fun s i => s ++ [i]⟩
 
@@ -356,43 +370,58 @@ theorem taiko_exhausted_stays_none (sk : Skills S) (objs : List Bool) (g : Taiko
   show taikoLen objs r1.2 = some 0
   simpa using this
 
-/-- `nth k` from the canonical state after `i` values: `None` when nothing remains, otherwise the
-value number `i + min (k + 1) (H - i)` (`min n (r - 1) + 1 = min (n + 1) r`), leaving the
-canonical state after that many values; from a drained state it returns `None` and changes
-nothing. -/
+/-- What `nth k` does from the canonical state after `i` values (as fixed): with more than `k` values
+remaining it returns the value number `i + k + 1` and leaves the canonical state after that many
+values; otherwise it consumes everything, returns `None` and leaves the drained state; from a drained
+state it returns `None` and changes nothing. -/
 theorem taiko_nth_processes_min (sk : Skills S) (objs : List Bool) (g : TaikoGrad S) (i k : Nat)
     (hc : TaikoCanon sk objs g i) :
     let H := hitsIn objs
-    (i < H →
-      (taikoNth sk objs g k).1 = .some (taikoValue sk objs (i + min (k + 1) (H - i))) ∧
-      TaikoCanon sk objs (taikoNth sk objs g k).2 (i + min (k + 1) (H - i))) ∧
-    (i = H → (taikoNth sk objs g k).1 = .none) ∧
-    (∀ g', TaikoDrained sk objs g' → taikoNth sk objs g' k = (.none, g')) := by
-  intro H
-  refine ⟨fun hlt => ?_, fun heq => ((taikoNth_spec sk objs g i k hc).1 heq).1,
+    (i + k < H →
+      (taikoNth sk objs g k).1 = .some (taikoValue sk objs (i + k + 1)) ∧
+      TaikoCanon sk objs (taikoNth sk objs g k).2 (i + k + 1)) ∧
+    (H ≤ i + k → (taikoNth sk objs g k).1 = .none ∧ TaikoDrained sk objs (taikoNth sk objs g k).2) ∧
+    (∀ g', TaikoDrained sk objs g' → taikoNth sk objs g' k = (.none, g')) :=
+  ⟨(taikoNth_spec sk objs g i k hc).1, (taikoNth_spec sk objs g i k hc).2,
     fun g' hd => taikoNth_drained sk objs g' k hd⟩
-  have e : i + min k (hitsIn objs - i - 1) + 1 = i + min (k + 1) (H - i) := by omega
-  have := (taikoNth_spec sk objs g i k hc).2 hlt
-  rw [e] at this
-  exact this
 
-/-- The iterator contract for taiko: when at least `k+1` values remain, `nth k` is exactly `k+1`
-calls of `next` (same result, same successor state index). -/
+/-- The per-state specifications of `next` and `nth` in the form of `Lemmas/GradualProtocol.lean`
+(states: canonical after `i` values, or drained with `i = H`). -/
+theorem taiko_protocol (sk : Skills S) (objs : List Bool) :
+    ProtocolSpec (taikoMachine sk objs) (TaikoSt sk objs) (hitsIn objs) (taikoValue sk objs) where
+  le := fun g i hs => by
+    rcases hs with hc | ⟨he, _⟩
+    · exact hc.le
+    · omega
+  next_some := fun g i hs hlt => by
+    rcases hs with hc | ⟨he, _⟩
+    · have := (taikoNext_spec sk objs g i hc).1 hlt
+      exact ⟨by show optToRes (taikoNext sk objs g).1 = _; rw [this.1]; rfl, Or.inl this.2⟩
+    · omega
+  next_none := fun g i hs heq => by
+    rcases hs with hc | ⟨he, hd⟩
+    · subst heq
+      have := taikoNext_exhausted sk objs g hc
+      exact ⟨by show optToRes (taikoNext sk objs g).1 = _; rw [this.1]; rfl, Or.inr ⟨rfl, this.2⟩⟩
+    · have := taikoNext_drained sk objs g hd
+      exact ⟨by show optToRes (taikoNext sk objs g).1 = _; rw [this]; rfl,
+        by show TaikoSt sk objs (taikoNext sk objs g).2 i; rw [this]; exact Or.inr ⟨he, hd⟩⟩
+  nth_some := fun g i k hs h => by
+    rcases hs with hc | ⟨he, _⟩
+    · exact ((taikoNth_spec sk objs g i k hc).1 h).1
+    · omega
+  nth_none := fun g i k hs h => by
+    rcases hs with hc | ⟨he, hd⟩
+    · exact ((taikoNth_spec sk objs g i k hc).2 h).1
+    · show (taikoNth sk objs g k).1 = _
+      rw [taikoNth_drained sk objs g k hd]
+
+/-- **The `Iterator::nth` contract for taiko**, for every `k` and every reachable state: `nth k` returns
+exactly what the last of `k+1` calls of `next` returns — `None` when fewer than `k+1` values remain. -/
 theorem taiko_nth_eq_iterated_next (sk : Skills S) (objs : List Bool)
-    (g : TaikoGrad S) (i k : Nat) (hc : TaikoCanon sk objs g i) (hk : i + k + 1 ≤ hitsIn objs) :
-    let m := taikoMachine sk objs
-    some (m.nth g k).1 = (m.nexts g (k + 1)).1.getLast? ∧
-    TaikoCanon sk objs (m.nth g k).2 (i + k + 1) ∧ TaikoCanon sk objs (m.nexts g (k + 1)).2 (i + k + 1) := by
-  intro m
-  have hlt : i < hitsIn objs := by omega
-  obtain ⟨hv, hcn⟩ := (taiko_nth_processes_min sk objs g i k hc).1 hlt
-  have e : i + min (k + 1) (hitsIn objs - i) = i + k + 1 := by omega
-  rw [e] at hv hcn
-  obtain ⟨hvs, hcs⟩ := taiko_nexts_spec sk objs (k + 1) g i hc (by omega)
-  refine ⟨?_, hcn, by simpa [Nat.add_assoc] using hcs⟩
-  show some (taikoNth sk objs g k).1 = _
-  rw [hv, hvs, List.range_succ]
-  simp
+    (g : TaikoGrad S) (i k : Nat) (hs : TaikoSt sk objs g i) :
+    some ((taikoMachine sk objs).nth g k).1 = ((taikoMachine sk objs).nexts g (k + 1)).1.getLast? :=
+  (taiko_protocol sk objs).nth_eq_iterated_next g i k hs
 
 /-- No operation sequence on any map makes `nth`, `next` or `len` hit the unchecked subtraction
 `total_hits - idx`: `nth` never panics and `len()` is always defined. -/
@@ -424,16 +453,18 @@ example :
   decide
 
 /-- Non-vacuity: `[roll, hit, roll, hit, hit, roll]` (irregular start); `nth 1` from the start
-reports the 2nd hit having processed two difficulty objects, `nth 5` then clamps to the last (3rd)
-hit, a further `nth 0` returns `None` and drains the trailing drum roll. -/
+reports the 2nd hit having processed two difficulty objects, `nth 0` then the 3rd (last) hit, a
+further `nth 5` returns `None` and drains the trailing drum roll; `nth 3` on a fresh calculator (3 hits)
+returns `None` having consumed everything, `nth 2` the last hit. -/
 example :
     let objs := [false, true, false, true, true, false]
     let m := taikoMachine listSkills objs
     let g0 := taikoNew listSkills objs
-    (m.nth g0 1).1 = .some (2, [0, 1]) ∧ (m.nth (m.nth g0 1).2 5).1 = .some (3, [0, 1, 2]) ∧
-    (m.nth (m.nth (m.nth g0 1).2 5).2 0).1 = .none ∧
-    m.len (m.nth (m.nth (m.nth g0 1).2 5).2 0).2 = some 0 ∧
-    (m.nth g0 2).1 = .some (3, [0, 1, 2]) ∧ (m.nth (m.next g0).2 7).1 = .some (3, [0, 1, 2]) := by
+    (m.nth g0 1).1 = .some (2, [0, 1]) ∧ (m.nth (m.nth g0 1).2 0).1 = .some (3, [0, 1, 2]) ∧
+    (m.nth (m.nth (m.nth g0 1).2 0).2 5).1 = .none ∧
+    m.len (m.nth (m.nth (m.nth g0 1).2 0).2 5).2 = some 0 ∧
+    (m.nth g0 2).1 = .some (3, [0, 1, 2]) ∧ (m.nth g0 3).1 = .none ∧
+    (m.nth g0 3).2.skills = [0, 1, 2, 3] ∧ m.len (m.nth g0 3).2 = some 0 := by
   decide
 
 /-- Non-vacuity: a concrete three-object map, after `next; nth 0`, is in the canonical state 2. -/
